@@ -278,6 +278,29 @@ def explore_shard(acc, shard):
                             acc.violation(f["clause"], case, f["expected"], f["observed"], signature=(f["clause"], "explicit"))
             if case:
                 acc.sample(layer, case)
+        elif kind == "R":
+            # the payload many times over: "the whole file decodes" does not depend on how often a byte pattern occurs
+            _, fsname = shard
+            layer = "R repeated payloads"
+            w = world(fsname)
+            case = None
+            for sig, p in sorted(MU.representatives().items()):
+                for k in (2, 15, 16, 17, 64, 1000):
+                    for ext in (".sm", ".ssc"):
+                        data = MU.file_bytes(ext, p * k, with_chart=False)
+                        for ln in ("default", "reversed", "cp949-cp1252"):
+                            case = {"kind": "detect", "fs": fsname, "ext": ext, "data": data.hex(), "list": ln}
+                            core.guard_cheap(acc, case)
+                            fails = check_detection(w, ext, data, ln)
+                            acc.count("states")
+                            acc.count("transitions")
+                            acc.count("evaluations")
+                            acc.count("nontrivial")
+                            acc.outcome("payload repeated many times")
+                            for f in fails:
+                                acc.violation(f["clause"], case, f["expected"], f["observed"], signature=(f["clause"], "repeated"))
+            if case:
+                acc.sample(layer, {"fs": fsname, "repeats": [2, 15, 16, 17, 64, 1000]})
         elif kind == "B":
             # a multi-byte character at every position around the usual buffer sizes: "the whole file decodes"
             _, fsname, bound = shard
@@ -317,7 +340,7 @@ def explore_shard(acc, shard):
             scripts = [()] + [(e,) for e in MU.EDITS] + ([tuple(s) for n in range(2, maxlen + 1) for s in itertools.product(MU.EDITS, repeat=n)])
             scripts += [("title_unencodable",), ("append_chart", "title_unencodable"), ("title_unencodable", "set_new")]
             for ext in (".sm", ".ssc"):
-                for with_chart, variant in ((False, None), (True, None), (False, "unterminated"), (True, "crlf"), (False, "empty"), (False, "commentonly"), (False, "chartsonly")):
+                for with_chart, variant in ((False, None), (True, None), (False, "unterminated"), (True, "crlf"), (False, "empty"), (False, "commentonly"), (False, "chartsonly"), (True, "longlist")):
                     if variant == "crlf" and fsname != "mem":
                         continue  # native text mode translates CRLF on reading; MemoryFS keeps it inside values
                     data = MU.file_bytes(ext, payload, with_chart, key_only=with_chart, variant=variant)
@@ -372,6 +395,8 @@ def explore(run):
     for b in (BOUNDARIES_THOROUGH if run.thorough() else BOUNDARIES_QUICK):
         shards.append(("B", "mem", b))
         shards.append(("B", "nat", b))
+    shards.append(("R", "mem"))
+    shards.append(("R", "nat"))
     nsig = len(MU.representatives())
     maxlen = 3 if run.thorough() else 2
     for i in range(nsig):
@@ -386,13 +411,15 @@ def explore(run):
         + ("every 2-byte payload with a high lead byte" if run.thorough() else "all 2-byte payloads for 7 lead bytes")
         + f" embedded as '#TITLE:<payload>;' in .sm and .ssc, in a comment-only .sm and in a charts-only .ssc x tried lists {list(LISTS)} + explicit encoding= ; "
         f"B: {len(boundary_payloads())} multi-byte payloads placed at every offset N-d (d = 0..length) for N in {list(BOUNDARIES_THOROUGH if run.thorough() else BOUNDARIES_QUICK)}, with and without text behind, x 3 lists x both filesystems; "
-        f"M: one representative payload per decodability signature ({nsig} signatures found by brute force) x 7 layouts (with/without chart, unterminated, CRLF, empty file, comments only, charts only) x {{.sm,.ssc}} x output name x backup {{none, other, =input, =output}} x "
+        "R: every representative payload repeated 2, 15, 16, 17, 64 and 1000 times x 3 lists x both filesystems; "
+        f"M: one representative payload per decodability signature ({nsig} signatures found by brute force) x 8 layouts (with/without chart, unterminated, CRLF, empty file, comments only, charts only, long one-line lists) x {{.sm,.ssc}} x output name x backup {{none, other, =input, =output}} x "
         f"encoding list {{default, reversed, explicit}} x filesystem x edit scripts of length <= {maxlen} over {MU.EDITS} x (for scripts of <= 1 edit) output/backup names free or already taken by older files x (native) absolute names or names relative to the current directory; after each run the whole filesystem is compared with the model and a no-op mutate is run on the written file. "
         "Non-trivial = payload not decodable everywhere / any edit, output or backup."
     )
     run.assumptions = ["Python's codecs define what 'decodes' means", "values contain no bare carriage return", "MemoryFS text streams do no newline translation, native ones do (universal newlines)"]
     core.require(acc.outcomes["no tried encoding decodes (UnicodeDecodeError)"] > 0, "error clause not exercised")
     core.require(acc.outcomes["clashing backup name"] > 0, "no clashing backup name")
+    core.require(acc.outcomes["payload repeated many times"] > 0, "no repeated payload")
     core.require(acc.outcomes["file without any header property"] > 0, "no header-less file")
     core.require(acc.outcomes["file names relative to the current directory"] > 0, "no relative names")
     core.require(acc.outcomes["output / backup name already taken by an older file"] > 0, "no pre-existing output / backup file")
